@@ -970,11 +970,22 @@ def _edges(repo, col, R="R-C11-edges"):
     from sa.terms import fuse_comprehensions as _fuse
 
     class _S:  # a store with its value in normal form (helpers of the class looked through)
-        def __init__(self, s_):
-            self.key, self.guards, self.node = s_.key, s_.guards, s_.node
-            self.value = _fuse(idx.inline(repo, fi, s_.value))
-    st = {("n" if s.key.name == "_nodes_in_view" else "e", tuple(g.pretty() for g in s.guards)): _S(s)
-          for s in ex.stores if s.kind == "attr" and s.key.name in ("_nodes_in_view", "_edges_in_view")}
+        def __init__(self, s_, value, path=()):
+            self.key, self.guards, self.node = s_.key, tuple(s_.guards) + tuple(path), s_.node
+            self.value = value
+
+    def _alts(t_, path=()):
+        """the alternatives of a conditional value: one store per branch, or one store of a value chosen branch by branch -- the same"""
+        if t_.op == "ifexp":
+            return _alts(t_.args[1], path + (t_.args[0],)) + _alts(t_.args[2], path + (T("not", None, [t_.args[0]]),))
+        return [(t_, path)]
+    st = {}
+    for s in ex.stores:
+        if s.kind == "attr" and s.key.name in ("_nodes_in_view", "_edges_in_view"):
+            from sa.terms import canon as _canon
+            for v_, path_ in _alts(_canon(_fuse(idx.inline(repo, fi, s.value)))):
+                o_ = _S(s, v_, path_)
+                st[("n" if s.key.name == "_nodes_in_view" else "e", tuple(g.pretty() for g in o_.guards))] = o_
     # node-selected view: the store of the edges that is computed from the two end columns (whatever the branch is called)
     def has_const(t_, c_):
         return T.find(t_, lambda y: y.op == "const" and y.name == c_) is not None
